@@ -66,12 +66,18 @@ type logRec struct {
 type recLogger struct {
 	mu   sync.Mutex
 	recs []logRec
+	park Dur
+	n    atomic.Int64
 }
 
 func (l *recLogger) Printf(format string, v ...interface{}) {
 	l.mu.Lock()
 	l.recs = append(l.recs, logRec{format: format, args: v})
 	l.mu.Unlock()
+	if l.park > 0 {
+		// a slow log sink (the library calls it with no lock held)
+		sleepClass(60+int(l.n.Add(1))%8, l.park)
+	}
 }
 
 func (l *recLogger) Println(v ...interface{}) {
@@ -159,7 +165,7 @@ func runScenario(t *testing.T, sc *Scenario) *History {
 func runScenarioIn(t *testing.T, sc *Scenario, h *History) {
 	srvTLS, cliTLS := tlsConfigs()
 	be := NewSimBackend(sc.BE)
-	logger := &recLogger{}
+	logger := &recLogger{park: sc.LogPark}
 	dbg := &debugSink{}
 	var ln *SimListener
 	var halves [][2]*SimConn
